@@ -42,7 +42,7 @@ ASSUMPTIONS = [
 RULE = ("EXHAUSTIVE over shapes: every shape n_x, n_y <= 7, n_z <= 4 (quick) / <= 12, <= 5 (thorough), both "
         "arrangements, x five code paths (getVialGroup for every single name, pairs and an unknown name; statistics "
         "table and trajectory table of a short real run; Snowfall accessors with group=...; storeStates group "
-        "requests); non-trivial when n_x, n_y >= 2; distinct by (arrangement, shape)")
+        "requests); non-trivial when n_x, n_y >= 2; distinct by the JSON form of the case (corpus cases repeat box shapes)")
 EXPLANATION = ("Lean theorems for all shapes with n_x, n_y >= 2 about the group model + exhaustive comparison of the "
                "five code paths with the model over a box of shapes")
 PARALLEL = True
@@ -328,6 +328,12 @@ def nontrivial(case, impl):
 
 def box(tier):
     return (7, 7, 4) if tier == "quick" else (12, 12, 5)
+
+
+def exhaustive(tier):
+    mx, my, mz = box(tier)
+    return (f"all {2 * mx * my * mz} (arrangement, shape) pairs with 1 <= n_x <= {mx}, 1 <= n_y <= {my}, "
+            f"1 <= n_z <= {mz}; the theorems cover all shapes, the tie of the model to the code is run on this box")
 
 
 def cases(rng, tier):
